@@ -306,8 +306,11 @@ def run_slow_reader(case):
                         else:
                             data += body
                             if mch & 2:
-                                ds = dsutils.decode(data, True, True)
-                                seen.append((str(ds.PatientID), str(ds.PatientComments)[:1], len(str(ds.PatientComments))))
+                                try:
+                                    ds = dsutils.decode(data, True, True)
+                                    seen.append((str(ds.PatientID), str(ds.PatientComments)[:1], len(str(ds.PatientComments))))
+                                except Exception:  # pylint: disable=broad-except
+                                    seen.append(('not a readable identifier', '', len(data)))
                                 data = b''
                     if final is not None:
                         break
